@@ -206,3 +206,33 @@ package shape
 //@   ensures [err-nil] start == nil || end == nil ==> r1 != nil
 //@   ensures [err-zoom] start != nil && end != nil && !(0 <= zoom && zoom <= 35) ==> r1 != nil
 //@ end
+
+//@ -- C09: the voxels of one point at all zooms are nested - the index at a coarser zoom is the floor ancestor of the
+//@ -- index at any finer zoom (vertical axis: IEEE semantics through the exact contract of the vertical kernel)
+//@ lemma C09_point_vertical_ids_are_nested
+//@   props C09 C01
+//@   var a int
+//@   var b int
+//@   var alt real
+//@   split a 0..35
+//@   split b 0..35
+//@   assume a <= b && abs(alt) <= 33554432.0 && (alt == 0.0 || abs(alt) >= 1e-290)
+//@   call coarse := getVerticalTileIdOnAltitude(alt, a)
+//@   call fine := getVerticalTileIdOnAltitude(alt, b)
+//@   assert [nested] val(fld(coarse, 1)) == anc(val(fld(fine, 1)), b - a)
+//@ end
+//@ -- horizontal axes: the same nesting for x and y, over ideal reals (from the ideal-formula case of the horizontal kernel)
+//@ lemma C09_point_horizontal_ids_are_nested
+//@   props C09 C01
+//@   var a int
+//@   var b int
+//@   var lon real
+//@   var lat real
+//@   split a 0..35
+//@   split b 0..35
+//@   assume a <= b && 0.0 - 180.0 <= lon && lon <= 180.0 && abs(lat) <= 85.0511287798 && abs(asinh(tan(lat * deg2rad))) <= pi
+//@   call coarse := getHorizontalTileIdOnPoint(lon, lat, a)
+//@   call fine := getHorizontalTileIdOnPoint(lon, lat, b)
+//@   assert [nested-x] val(fld(coarse, 1)) == anc(val(fld(fine, 1)), b - a)
+//@   assert [nested-y] val(fld(coarse, 2)) == anc(val(fld(fine, 2)), b - a)
+//@ end
